@@ -1,4 +1,153 @@
-import MpVerif.C06.Model
+import MpVerif.C06.Lemmas
+/-!
+# C06 — property theorems
+
+Property: whenever the converter introduces a variable for the value of an expression, the bounds it assigns contain
+every value of the expression over the argument domains, INTEGER is declared only for integer-valued expressions,
+and a constant / an existing variable replaces the expression only if it equals it on the whole domain.
+
+All theorems are about the model in `Model.lean` (which is compared with the real code on every run) and are
+quantified over **all** environments (`e : Env`, arbitrary bounds in −∞ | ℚ | +∞ | NaN and types), all valuations in
+the boxes, all coefficient lists / parameters.  `tr`/`trp` interpret the transcendental functions and are arbitrary.
+-/
 namespace MpVerif.C06
-theorem C06_stub : True := trivial
+open ER
+
+variable (tr : UnFn → Rat → Rat) (trp : UnPFn → Rat → Rat → Rat)
+
+/-- **Constant replacement** (`BasicFCC::Convert`: `if (ResultIsConstant()) return MakeConst(lb())`): whenever the
+inferred bounds are sound and `lb == ub`, the expression equals that constant. -/
+theorem C06_constant_sound (p : Pre) (x : Rat) (h : p.Contains x) (hc : p.isConstant = true) : p.lb = fin x := by
+  obtain ⟨hl, hu, _⟩ := h
+  cases hlb : p.lb <;> cases hub : p.ub <;> simp_all [Pre.isConstant, ER.eq, lbOK, ubOK]
+  linarith
+
+/-- **Linear expressions** (`PreprocessConstraint(LinearFunctionalConstraint&)` over `ComputeBoundsAndType`):
+bounds and type are sound for every box and every coefficient list (zero coefficients, infinite bounds, NaN from
+`0·∞` included). -/
+theorem C06_lin (e : Env) (val : Val) (h : Feasible e val) (c0 : Rat) (ts : LinT) :
+    ∃ pre, prepro e (.lin c0 ts) = .keep pre (.lin c0 ts) ∧ pre.Contains (Con.eval tr trp val (.lin c0 ts)) := by
+  refine ⟨_, rfl, ?_⟩
+  have := fresh_narrow_sound _ _ (withConst_sound _ _ c0 (boundsLin_sound e val h ts))
+  simpa [Con.eval, add_comm] using this
+
+
+/-! ## abs -/
+
+/-- **abs, preprocessing level**: the alias `|x| = x` is taken only if `x ≥ 0` on the whole box, the redirection to
+`−x` only if `x ≤ 0` on the whole box, and otherwise `[0, max(−lb, ub)]` with the argument's type is sound. -/
+theorem C06_abs (e : Env) (val : Val) (h : Feasible e val) (a : Nat) :
+    match preproAbs e a with
+    | .alias v => val v = Con.eval tr trp val (.abs a)
+    | .redirectGetVar c _ => Con.eval tr trp val c = Con.eval tr trp val (.abs a)
+    | .keep pre c => c = .abs a ∧ pre.Contains (Con.eval tr trp val (.abs a))
+    | _ => False := by
+  obtain ⟨hl, hu, hi⟩ := h a
+  unfold preproAbs
+  by_cases h1 : le (fin 0) (e a).lb = true
+  · simp only [h1, if_true]
+    have : 0 ≤ val a := by
+      cases hlb : (e a).lb <;> simp_all [le, ER.lt, ER.eq, lbOK]
+      rcases h1 with h1 | h1 <;> linarith
+    simp [Con.eval, this]
+  · simp only [h1]
+    by_cases h2 : le (e a).ub (fin 0) = true
+    · simp only [h2, if_true]
+      have hx : val a ≤ 0 := by
+        cases hub : (e a).ub <;> simp_all [le, ER.lt, ER.eq, ubOK]
+        rcases h2 with h2 | h2 <;> linarith
+      by_cases h0 : 0 ≤ val a
+      · have : val a = 0 := le_antisymm hx h0
+        simp [Con.eval, linVal, this]
+      · simp [Con.eval, linVal, h0]
+    · simp only [h2]
+      refine ⟨rfl, ?_, ?_, ?_⟩
+      · refine narrow_lb ninf (fin 0) _ (by simp [lbOK]) (Or.inr ?_)
+        simp only [Con.eval, lbOK]; split <;> linarith
+      · refine narrow_ub pinf (smax (neg (e a).lb) (e a).ub) _ (by simp [ubOK]) (Or.inr ?_)
+        cases hlb : (e a).lb <;> cases hub : (e a).ub <;>
+          simp_all [smax, neg, ER.lt, ubOK, lbOK, Con.eval]
+        next p q =>
+          by_cases hpq : -p < q <;> simp [hpq, ubOK] <;> split <;> linarith
+      · intro hint
+        simp only [Pre.setType] at hint
+        have := hi hint
+        simp only [Con.eval]; split
+        · exact this
+        · exact this.neg
+
+/-- **abs, conversion level (partial)**: when the conversion of `−x` yields a *variable*, that variable is returned.
+The full statement — "`abs(x)` is replaced by an existing variable only if equal to it on the whole box" — is FALSE
+for the code as it exists, see `C06_counterexample_abs_fixed_negative`:
+
+  theorem C06_abs_assign (s) (a) (val) (h : s sound at val) :
+      (s.assign (.abs a)).2 = .var v → val v = |val a|        -- fails when lb = ub < 0
+-/
+theorem C06_abs_assign_partial (s : State) (a v : Nat)
+    (hneg : preproAbs s.env a = .redirectGetVar (.lin 0 [(-1, a)]) (.abs a))
+    (hv : (s.assignBase (.lin 0 [(-1, a)])).2 = .var v) :
+    (s.assign (.abs a)).2 = .var v := by
+  simp only [State.assign, argNarrowing, prepro, hneg]
+  revert hv
+  cases hr : s.assignBase (.lin 0 [(-1, a)]) with
+  | mk s1 r => intro hv; simp only at hv; subst hv; rfl
+
+def cexAbsState : State :=
+  { vars := #[{ lb := fin 7, ub := fin 9, int := false }, { lb := fin (-2), ub := fin (-2), int := false }],
+    defs := #[none, none], fixed := [] }
+
+/-- **Counterexample (open finding C06-abs-fixed-negative)**: `x0 ∈ [7,9]`, `x1` fixed at `−2`: `abs(x1)` is
+"replaced" by `x0` (the constant `2.0` returned for `−x1` is read back as variable index 0), yet `|x1| = 2 ∉ [7,9]`. -/
+theorem C06_counterexample_abs_fixed_negative :
+    (cexAbsState.assign (.abs 1)).2 = .var 0 ∧
+    ∀ val : Val, Feasible cexAbsState.env val → val 0 ≠ Con.eval tr trp val (.abs 1) := by
+  refine ⟨by decide +kernel, ?_⟩
+  intro val hf
+  obtain ⟨h0l, _, _⟩ := hf 0
+  obtain ⟨h1l, h1u, _⟩ := hf 1
+  have e0 : (cexAbsState.env 0).lb = fin 7 := by decide +kernel
+  have e1l : (cexAbsState.env 1).lb = fin (-2) := by decide +kernel
+  have e1u : (cexAbsState.env 1).ub = fin (-2) := by decide +kernel
+  rw [e0] at h0l; rw [e1l] at h1l; rw [e1u] at h1u
+  simp only [lbOK, ubOK] at h0l h1l h1u
+  have : val 1 = -2 := le_antisymm h1u h1l
+  simp only [Con.eval, this]
+  norm_num
+  linarith
+
+/-! ## 0/1-valued results, counting -/
+
+theorem preBool_contains_b2r (b : Bool) : preBool.Contains (b2r b) := by
+  cases b <;> simp [preBool, Pre.Contains, Pre.narrow, Pre.setType, smax, smin, ER.lt, lbOK, ubOK, b2r, IsInt.zero, IsInt.one]
+
+/-- **not, implication, alldiff**: `[0,1]` INTEGER contains the truth value. -/
+theorem C06_logical (e : Env) (val : Val) (c : Con)
+    (hc : (∃ a, c = .not a) ∨ (∃ a b d, c = .impl a b d) ∨ (∃ as, c = .alldiff as)) :
+    prepro e c = .keep preBool c ∧ preBool.Contains (Con.eval tr trp val c) := by
+  rcases hc with ⟨a, rfl⟩ | ⟨a, b, d, rfl⟩ | ⟨as, rfl⟩ <;>
+    exact ⟨rfl, by simpa [Con.eval] using preBool_contains_b2r _⟩
+
+/-- **count / numberof(const)**: `[0, n]` INTEGER contains the count. -/
+theorem C06_count (e : Env) (val : Val) (as : List Nat) (k : Rat) :
+    (∃ pre, prepro e (.count as) = .keep pre (.count as) ∧ pre.Contains (Con.eval tr trp val (.count as))) ∧
+    (∃ pre, prepro e (.nconst k as) = .keep pre (.nconst k as) ∧ pre.Contains (Con.eval tr trp val (.nconst k as))) := by
+  have hle : ∀ (p : Nat → Bool), (((as.filter p).length : Nat) : Rat) ≤ (as.length : Rat) := fun p => by
+    exact_mod_cast List.length_filter_le p as
+  constructor
+  · exact ⟨_, rfl, fresh_range_sound (fin 0) (fin as.length) true _ (Or.inr (by simp [lbOK, Con.eval]))
+      (Or.inr (by simpa [ubOK, Con.eval] using hle _)) (fun _ => IsInt.natCast _)⟩
+  · exact ⟨_, rfl, fresh_range_sound (fin 0) (fin as.length) true _ (Or.inr (by simp [lbOK, Con.eval]))
+      (Or.inr (by simpa [ubOK, Con.eval] using hle _)) (fun _ => IsInt.natCast _)⟩
+
+/-- **numberof(var)**: `[0, n−1]` (first argument is the reference) INTEGER contains the count. -/
+theorem C06_nvar (e : Env) (val : Val) (r : Nat) (l : List Nat) :
+    ∃ pre, prepro e (.nvar (r :: l)) = .keep pre (.nvar (r :: l)) ∧ pre.Contains (Con.eval tr trp val (.nvar (r :: l))) := by
+  have h2 : (((l.filter (fun v => decide (val v = val r))).length : Nat) : Rat) ≤ (l.length : Rat) := by
+    exact_mod_cast List.length_filter_le _ l
+  refine ⟨_, rfl, fresh_range_sound (fin 0) (fin (((r :: l).length : Int) - 1)) true _
+    (Or.inr (by simp [lbOK, Con.eval])) (Or.inr ?_) (fun _ => IsInt.natCast _)⟩
+  simp only [ubOK, Con.eval, List.length_cons]
+  push_cast
+  linarith
+
 end MpVerif.C06
